@@ -137,6 +137,12 @@ Proof.
   - discriminate.
   - destruct H as (V & _). apply drivers_kept_same. exact V.
   - apply drivers_kept_same. reflexivity.
+  - destruct (transition_vonly env _ _ _ _ _ H2 K) as [K1 Oth1]. destruct (perform_update_vonly env _ _ _ _ H4 K1) as [_ Oth2].
+    assert (Dt : dt s1 = dt s) by (destruct (transition_vstep env (dt s) false _ _ _ _ H2 eq_refl K) as (D & _); exact D).
+    apply (acting_vehicle_kept s s' vid K).
+    + unfold vstate_of in H. destruct (find vid (vehicles s)) as [v|]; [eauto|discriminate].
+    + intros k N. rewrite Oth2, Oth1; auto.
+    + eapply vstep_trans; [eapply transition_vstep; eauto|]. rewrite <- Dt. eapply perform_update_vstep; eauto.
 Qed.
 Lemma mstar_keeps_drivers s s' : MStarA env false s s' -> vkeys s -> drivers_kept s s' /\ vkeys s'.
 Proof.
